@@ -96,6 +96,17 @@ def main():
                   fail('c18-idempotence-openmetrics-lookalike', x=xo, carbon=ycar, openmetrics=yo)
                 else:
                   fail('c18-syntax-disagreement', carbon_input=carbon(name, perm), openmetrics_input=xo, carbon=ycar, openmetrics=yo)
+  # a tag given twice: whatever the rule is (the last one wins), both syntaxes must follow it
+  for name in ('n', 'm.x', '~n'):
+    for k in ('a', 'b', 'name'):
+      for (v1, v2) in itertools.permutations(('1', 'v', 'w=1', '"q"'), 2):
+        for extra in ((), (('z', '9'),)):
+          for pos in range(len(extra) + 1):
+            tags = [(k, v1)] + list(extra[:pos]) + [(k, v2)] + list(extra[pos:])
+            yc, yo = norm(carbon(name, tags)), norm(openmetrics(name, tags))
+            evals += 2
+            if yc is not None and yo is not None and yc != yo and not (lookalike(yc) or lookalike(yo)):
+              fail('c18-syntax-disagreement', carbon_input=carbon(name, tags), openmetrics_input=openmetrics(name, tags), carbon=yc, openmetrics=yo)
   flat = [f for v in failures.values() for f in v]
   print('BOUNDED-RESULT ' + json.dumps({'evaluations': evals, 'distinct_cases': len(distinct), 'failures': flat,
                                         'failure_kinds': {k: len(v) for k, v in failures.items()}}))
